@@ -1236,6 +1236,66 @@ def compare_node(model, nodeobs):
     return diffs
 
 
+_srv_counter = iter(range(1, 1 << 30))
+
+
+def make_server(paths, base):
+    """the REAL `Server` object for a list of config files (`Server.__init__`: `load_config`, node section, interface)"""
+    import signal
+    import mlzlog
+    from pathlib import Path
+    from frappy.lib import generalConfig
+    from frappy.server import Server
+    from vlib.node import patch_version
+    patch_version()
+    generalConfig.testinit(piddir=Path(base))
+    old = {sig: signal.getsignal(sig) for sig in (signal.SIGINT, signal.SIGTERM)}     # Server installs its own handlers
+    logging.disable(logging.CRITICAL)
+    try:
+        return Server('verifc10', mlzlog.MLZLogger('fvs%d' % next(_srv_counter)), cfgfiles=list(paths),
+                      interface='tcp://5000', testonly=True)
+    finally:
+        logging.disable(logging.NOTSET)
+        for sig, h in old.items():
+            signal.signal(sig, h)
+
+
+def server_node(srv):
+    """one round of the real `Server._processCfg` (what `Server.run` does at start and after every `restart`): SecNode,
+    Dispatcher, create_modules, descriptive data, the error report on stderr and `sys.exit(1)`.  The result offers what
+    `vlib.node.Node` offers; `errors` is the report the operator gets (the lines written to stderr)"""
+    import contextlib
+    import io
+    from vlib.node import Node
+
+    class ServerNode(Node):
+        def __init__(self):                     # pylint: disable=super-init-not-called
+            self.conns = {}
+    node = ServerNode()
+    err = io.StringIO()
+    node.exited = None
+    logging.disable(logging.CRITICAL)
+    try:
+        with contextlib.redirect_stderr(err):
+            try:
+                srv._processCfg()
+            except SystemExit as e:
+                node.exited = e.code
+    finally:
+        logging.disable(logging.NOTSET)
+    node.srv, node.secnode, node.dispatcher = srv, srv.secnode, srv.dispatcher
+    node.stderr = err.getvalue()
+    if node.exited is None:
+        node.errors = list(srv.secnode.errors)          # a node which starts although it has errors is judged as such
+    else:
+        node.errors = node.stderr.split('\n')[:-1] or ['(exit without report)']
+    return node
+
+
+def cls_of(d, classes):
+    return d['cls'] if not isinstance(d['cls'], str) else classes[d['cls'].split('.')[-1]]
+
+
 def make_node(module_cfg):
     from vlib.node import Node
     logging.disable(logging.CRITICAL)
@@ -1340,7 +1400,7 @@ def effective_cfgs(case, classes, res=None):
             out[mo['name']] = raw_cfg(classes[mo['cls']], mo['entries'])
         return out, None
     from pathlib import Path
-    from frappy.config import load_config, process_file
+    from frappy.config import process_file
     base = tempfile.mkdtemp(prefix='verif-c10-')
     try:
         paths, texts = [], []
@@ -1367,19 +1427,16 @@ def effective_cfgs(case, classes, res=None):
                                   'modules': [[k, tag_of(v)] for k, v in c.items() if k != 'node']})
             raw_lists = [{'eq': f'eq{f}', 'modules': [[mo['name'], f'{f}.{i}'] for i, mo in per_file[f]]}
                          for f in range(case['nfiles'])]
-            config = load_config(paths, log)
         finally:
             logging.disable(logging.NOTSET)
+        # the node is built by the real Server from these files (`Server.__init__` calls `load_config`): its module_cfg IS
+        # the loaded, merged configuration
+        srv = make_server(paths, base)
+        config = srv.module_cfg
         merged = {'modules': [[k, tag_of(v), origin_of(v)] for k, v in config.items() if k != 'node'],
-                  'ambiguous': sorted(config.ambiguous)}
-        out = {}
-        for k, v in config.items():
-            if k == 'node':
-                continue
-            d = dict(v)
-            d['cls'] = classes[d['cls'].split('.')[-1]]
-            out[k] = d
-        return out, {'files_obs': files_obs, 'files_raw': raw_lists, 'merged': merged, 'texts': texts}
+                  'ambiguous': sorted(getattr(config, 'ambiguous', ['(the merged configuration has no attribute ambiguous)']))}
+        return {k: v for k, v in config.items() if k != 'node'}, {
+            'files_obs': files_obs, 'files_raw': raw_lists, 'merged': merged, 'texts': texts, 'server': srv}
     finally:
         shutil.rmtree(base, ignore_errors=True)
 
@@ -1404,6 +1461,7 @@ def run_case(case):
     specs = {s['id']: s for s in case['specs']}
     eff, merge = effective_cfgs(case, classes)
     # what the configuration SAYS is captured before anything is built from it
+    srv = merge.pop('server') if merge else None
     snap = {}
     for name, d in eff.items():
         before = lean_cfg(d['cls'], d)
@@ -1419,17 +1477,18 @@ def run_case(case):
     gens = []
     for gen in (1, 2):
         # Server._processCfg: a new SecNode from Server.module_cfg — the SAME configuration objects at every (re)start
-        node = make_node({k: dict(v) for k, v in eff.items()})
+        # (config files: the real Server processes its configuration, again for the second start)
+        node = server_node(srv) if srv is not None else make_node({k: dict(v) for k, v in eff.items()})
         errs = split_errors(node.errors)
         mods = []
         for name, d in eff.items():
-            cls = d['cls']
+            cls = cls_of(d, classes)
             spec = specs[cls.__name__]
             mods.append({'name': name, 'spec': spec, 'cls': class_desc(spec, cls), 'cfg': snap[name]['cfg'],
                          'before': snap[name]['before'], 'after': lean_cfg(cls, d), 'gen': gen, 'dsl': case['path'] == 'dsl',
                          'jcfg': snap[name]['jcfg'], 'obs': observe_module(node, name, spec, cls, d)})
         nodeobs = observe_node(node, eff, errs)
-        gens.append({'mods': mods, 'node': nodeobs})
+        gens.append({'mods': mods, 'node': nodeobs, 'by': 'Server._processCfg' if srv is not None else 'vlib.node.Node'})
         if node.errors or not case.get('restart') or os.environ.get('VERIF_C10_NORESTART'):
             break                       # a node with configuration errors exits: there is no restart
     return {'gens': gens, 'merge': merge}
@@ -1908,6 +1967,7 @@ def run(ctx):
             res.evaluations += 1
             res.traces += 1
             res.count('node.modules=%d' % len(g['node']['configured']))
+            res.count('node.built-by=' + g.get('by', '?'))
             res.count('node.failing=%d' % min(len(g['node']['reported']), 3))
             res.count('node.failing-to-initialise=%d' % min(len(g['node']['initReported']), 3))
             for e in g['node']['init']:
